@@ -214,38 +214,73 @@ def run(ctx, rep):
 
 
 def release_loop(ctx, rep, R):
+    """every package handed to the execution layer by the release step has passed its OWN test:
+    same market and elapsed > delay (strict); the scan of the queue has no early exit; exactly the
+    released packages leave the queue"""
     prog = ctx.prog
     f = prog.own_method("FlumineSimulation", "_check_pending_packages")
     cfg = ctx.cfg(f)
-    loops = [lp for lp in walk_nodes(f.node.body, ast.For) if utext(lp.iter) == "self.handler_queue"]
-    if len(loops) != 1:
-        raise AnalysisError("_check_pending_packages: scan of the queue not found")
-    lp = loops[0]
-    rep.check(not loop_body_exits_early(lp) and not walk_nodes(lp.body, ast.Continue), R,
-              key(f, None, "the whole queue is scanned (no break / return / continue)"), f, lp,
-              "stopping at the first package that is not due couples unrelated requests: a fast cancel waits behind a slow placement")
     hc = node_calls(cfg, "handler")
-    good = len(hc) == 1
-    if good:
-        n, c = hc[0]
-        pv = utext(lp.target)
+    if not rep.check(len(hc) >= 1, R, key(f, None, "the release step executes due packages"), f, None,
+                     "no call of execution.handler in the release step"):
+        return
+    for lp in walk_nodes(f.node.body, ast.For):
+        if "self.handler_queue" in utext(lp.iter):
+            rep.check(not loop_body_exits_early(lp) and not walk_nodes(lp.body, ast.Continue), R,
+                      key(f, lp.iter, "the whole queue is scanned (no break / return / continue)"), f, lp,
+                      "stopping at the first package that is not due couples unrelated requests: a fast cancel waits behind a slow placement")
+    for n, c in hc:
+        pv = utext(c.args[0]) if c.args else None
         gs = [g for g, pol in cfg.guards(n.id) if pol]
         cmps = [canon_compare(g.exprs[0]) for g in gs]
-        mk_ok = any(o is not None and o[1] == "==" and o[2] == f.params[1]
-                    for o in [oriented(c2, "%s.market_id" % pv) for c2 in cmps if c2])
         dl_ok = any(o is not None and o[1] == ">" and o[2] == "%s.simulated_delay" % pv
                     for o in [oriented(c2, "%s.elapsed_seconds" % pv) for c2 in cmps if c2])
-        extra = [utext(g.exprs[0]) for g in gs if "market_id" not in utext(g.exprs[0]) and "elapsed_seconds" not in utext(g.exprs[0])]
-        good = mk_ok and dl_ok and not extra and len(cfg.guards(n.id)) == 2 and utext(c.args[0]) == pv \
-            and utext(c.func.value) == "%s.client.execution" % pv
-    rep.check(good, R, key(f, None, "released iff same market and elapsed > delay (strict), through its own client's execution"),
-              f, hc[0][1] if hc else None)
-    ap = [(n2, c2) for n2, c2 in node_calls(cfg, "append") if recv_text(c2) == "processed"]
-    good = len(ap) == 1 and hc and [(utext(g.exprs[0]), pol) for g, pol in cfg.guards(ap[0][0].id)] == \
-        [(utext(g.exprs[0]), pol) for g, pol in cfg.guards(hc[0][0].id)]
-    rm = [lp2 for lp2 in walk_nodes(f.node.body, ast.For) if utext(lp2.iter) == "processed"]
-    good = good and len(rm) == 1 and [utext(s) for s in rm[0].body] == ["self.handler_queue.remove(%s)" % utext(rm[0].target)]
-    rep.check(good, R, key(f, None, "exactly the released packages leave the queue"), f)
+        mk_ok = any(o is not None and o[1] == "==" and o[2] == f.params[1]
+                    for o in [oriented(c2, "%s.market_id" % pv) for c2 in cmps if c2])
+        if not mk_ok:
+            mk_ok = _filtered_by_market(f, c, pv)
+        rep.check(dl_ok, R, key(f, c, "a package is released only when its own elapsed time exceeds its own delay (strict)"), f, c,
+                  "guards on this release: %s - a package released on another package's clock gets free speed or is held back" % [
+                      utext(g.exprs[0]) for g in gs])
+        rep.check(mk_ok, R, key(f, c, "only packages of the market being updated are released"), f, c)
+        extra = [utext(g.exprs[0]) for g, pol in cfg.guards(n.id)
+                 if "market_id" not in utext(g.exprs[0]) and "elapsed_seconds" not in utext(g.exprs[0])]
+        rep.check(not extra, R, key(f, c, "nothing else decides a release"), f, c, str(extra))
+        rep.check(utext(c.func.value) == "%s.client.execution" % pv, R, key(f, c, "released through its own client's execution"), f, c)
+        # the released package leaves the queue (directly, or via a list drained after the scan)
+        direct = [x for x, c2 in node_calls(cfg, "remove") if recv_text(c2) == "self.handler_queue" and utext(c2.args[0]) == pv
+                  and sorted((utext(g.exprs[0]), pol) for g, pol in cfg.guards(x.id)) == sorted((utext(g.exprs[0]), pol) for g, pol in cfg.guards(n.id))]
+        via = [(x, c2) for x, c2 in node_calls(cfg, "append") if utext(c2.args[0]) == pv
+               and sorted((utext(g.exprs[0]), pol) for g, pol in cfg.guards(x.id)) == sorted((utext(g.exprs[0]), pol) for g, pol in cfg.guards(n.id))]
+        drained = False
+        for x, c2 in via:
+            lst = recv_text(c2)
+            for lp in walk_nodes(f.node.body, ast.For):
+                if utext(lp.iter) == lst and [utext(s) for s in lp.body] == ["self.handler_queue.remove(%s)" % utext(lp.target)]:
+                    drained = True
+        rep.check(bool(direct) or drained, R, key(f, c, "exactly the released packages leave the queue"), f, c)
+
+
+def _filtered_by_market(f, call, pv):
+    """is pv drawn from a list comprehension over the queue filtered by `<x>.market_id == market_id`?"""
+    for lp in walk_nodes(f.node.body, ast.For):
+        if call in walk_calls(lp.body) and pv in [n.id for n in ast.walk(lp.target) if isinstance(n, ast.Name)]:
+            it = lp.iter
+            for _ in range(4):
+                if isinstance(it, ast.Call) and it.args:
+                    it = it.args[0]
+                elif isinstance(it, ast.Subscript):
+                    it = it.value
+                else:
+                    break
+            if isinstance(it, ast.Name):
+                d = [s for s in walk_nodes(f.node.body, ast.Assign) if utext(s.targets[0]) == it.id]
+                if len(d) == 1 and isinstance(d[0].value, ast.ListComp):
+                    g = d[0].value.generators[0]
+                    v = utext(g.target)
+                    return any(utext(c) in ("%s.market_id == %s" % (v, f.params[1]), "%s == %s.market_id" % (f.params[1], v))
+                               for c in g.ifs)
+    return False
 
 
 def clock_lint(ctx, rep, R):
